@@ -105,7 +105,7 @@ static void run_object(int kind, uint32_t S, int tier)
 
 /* basic objects and the fixed strings: both modes, small block sizes, every acknowledge position of the first block */
 static const struct { int o; uint16_t idx; uint8_t sub; } BT[] = { {O_U8, 0x2000, 0}, {O_U16, 0x2001, 0}, {O_U32, 0x2002, 0}, {O_U32D, 0x2003, 0}, {O_RO, 0x2004, 0}, {O_NID, 0x2006, 0},
-    {O_DOM3, 0x2010, 0}, {O_DOMA, 0x2011, 0}, {O_STR3, 0x2020, 0}, {O_STR5, 0x2021, 0}, {O_STR12, 0x2022, 0}, {O_SUB0, 0x2030, 0}, {O_SUB1, 0x2030, 1}, {O_RANGE, 0x2040, 0} };
+    {O_DOM3, 0x2010, 0}, {O_DOMA, 0x2011, 0}, {O_STR3, 0x2020, 0}, {O_STR5, 0x2021, 0}, {O_STR12, 0x2022, 0}, {O_SUB0, 0xA030, 0}, {O_SUB1, 0xA030, 1}, {O_RANGE, 0xA040, 0} };
 static void basic_case(int t, int mode, int bs, int k0)
 {
     uint32_t len = 0, ann = 0; int r = 0; char what[100], smp[160];
@@ -130,10 +130,60 @@ static void run_basic(void)
     }
 }
 
+/* ---- cfg 17: the same uploads after an earlier transfer the client abandoned (client abort after k requests) or completed ---- */
+static uint8_t PAY2[16], UP2[SDO_DS2 + 32];
+static const char *const PRE_NAME[] = { "none", "segmented download to 2011h", "block download to 2011h", "segmented upload", "block upload (block size 3)" };
+static void history_case(int kind, uint32_t S, int content, int mode, int bs, int pk, int pkk, int k0)
+{
+    char what[200], smp[240]; uint32_t len = 0, ann = 0; int r, oi = kind ? O_STRV : O_DOMB; uint16_t idx = kind ? 0x2023 : 0x2012;
+    int db[1] = { 0 }, da[1] = { k0 }, dbs[1] = { 0 };
+    w_restore(snap0); w_obs_clear();
+    set_object(kind, S, content);
+    cl_budget = pkk; cl_stopped = 0;
+    if (pk == 1) (void)cl_seg_dl(0, 0x2011, 0, PAY2, 10, 1);
+    else if (pk == 2) (void)cl_blk_dl(0, 0x2011, 0, PAY2, 10, 1, 0, 0);
+    else if (pk == 3) (void)cl_upload(0, idx, 0, UP2, sizeof UP2, &len, &ann);
+    else (void)cl_blk_ul(0, idx, 0, 3, UP2, sizeof UP2, &len, &ann, 0, 0, 0, 0);
+    cl_budget = -1;
+    if (cl_stopped) cl_client_abort(0);
+    cl_stopped = 0;
+    w_obs_clear();
+    cl_trace = 0; cl_frames = 0; cl_abort = 0; len = ann = 0;
+    memset(BUF, 0xEE, sizeof BUF);
+    snprintf(what, sizeof what, "after %s (%s k=%d): %s S=%u content=%d %s bs=%d ack0=%d", PRE_NAME[pk], pkk < 0 ? "completed" : "abandoned", pkk, kind ? "string" : "domain", S, content, mode ? "block" : "segmented", bs, k0);
+    if (mode == 0) r = cl_upload(0, idx, 0, BUF, sizeof BUF, &len, &ann);
+    else r = cl_blk_ul(0, idx, 0, (uint8_t)bs, BUF, sizeof BUF, &len, &ann, db, da, dbs, k0 >= 0 ? 1 : 0);
+    mc_log("  %s -> r=%d len=%u announced=%u\n", what, r, len, ann);
+    (void)check_upload(r, oi, len, ann, what);
+    if (OBS.fatal) mc_fail("safety:fatal-error callback invoked", "%s", what);
+    snprintf(smp, sizeof smp, "%s -> %u bytes", what, len);
+    mc_case_end(outcome(r, len) ^ ((uint64_t)pk << 52), 1, smp);
+}
+static void run_history(int tier)
+{
+    static const int qs[] = { 1, 4, 5, 7, 8, 14, 15, 22, 50, 64, 890 };
+    static const int bsl[] = { 1, 2, 3, 7, 127 };
+    int kmax = tier ? 7 : 4;
+    for (int pk = 1; pk <= 4; pk++) for (int pkk = -1; pkk <= kmax; pkk++) {
+        if (pkk == 0) continue;
+        for (int kind = 0; kind < 2; kind++) for (unsigned si = 0; si < (tier ? (unsigned)n_all : sizeof qs / sizeof qs[0]) && !mc_deadline_hit(); si++) {
+            uint32_t S = (uint32_t)(tier ? all_sizes[si] : qs[si]);
+            if (S > 900) continue;
+            mc_case(9, 200, kind, (int)S, 0, 0, 0, pk, pkk, -1);
+            history_case(kind, S, 0, 0, 0, pk, pkk, -1);
+            for (unsigned b = 0; b < sizeof bsl / sizeof bsl[0]; b++) for (int k0 = -1; k0 <= (S > 100 ? 0 : 2); k0++) {
+                mc_case(9, 200, kind, (int)S, 1, 1, bsl[b], pk, pkk, k0);
+                history_case(kind, S, 1, 1, bsl[b], pk, pkk, k0);
+            }
+        }
+    }
+}
+
 static void setup(void)
 {
     sdo_world_build(0);
     sdo_model_init();
+    for (unsigned i = 0; i < sizeof PAY2; i++) PAY2[i] = (uint8_t)(0xE0 ^ (i * 3));
     if (!snap0) snap0 = malloc(w_snap_size());
     w_save(snap0);
     n_all = 0;
@@ -148,6 +198,7 @@ static void run_cfg(int cfg, int tier)
 {
     setup();
     if (cfg == 2) { run_basic(); return; }
+    if (cfg == 17) { run_history(tier); return; }
     int *sz = all_sizes; int ns = n_all; (void)sizes_q;
     /* cfg 0: domains, cfg 1: strings; cfg >= 3: thorough shards of the size list */
     int kind = cfg == 1 ? 1 : 0, shard = -1, nshard = 1;
@@ -164,11 +215,12 @@ static void run_case(const int *c, int n)
     setup();
     if (n < 6) return;
     mc_case_v(c + 1, n - 1);
+    if (c[1] == 200 && n >= 10) { history_case(c[2], (uint32_t)c[3], c[4], c[5], c[6], c[7], c[8], c[9]); return; }
     if (c[1] >= 100) { basic_case(c[1] - 100, c[2], c[3], c[4]); return; }
     int db[2] = { n > 7 ? c[7] : -1, n > 10 ? c[10] : -1 }, da[2] = { n > 8 ? c[8] : -1, n > 11 ? c[11] : -1 }, dbs[2] = { n > 9 ? c[9] : 0, n > 12 ? c[12] : 0 };
     one_case(c[1], (uint32_t)c[2], c[3], c[4], c[5], db, da, dbs, c[6], 0);
 }
 
-static const char *cfg_name(int c) { static char b[40]; if (c == 0) return "domains"; if (c == 1) return "strings"; if (c == 2) return "basic objects"; snprintf(b, sizeof b, "%s shard %d/7", (c - 3) & 1 ? "strings" : "domains", (c - 3) >> 1); return b; }
-static const mc_enum E = { "C03", "c03", 17, cfg_name, run_cfg, run_case };
+static const char *cfg_name(int c) { static char b[40]; if (c == 0) return "domains"; if (c == 1) return "strings"; if (c == 2) return "basic objects"; if (c == 17) return "after an earlier completed or abandoned transfer"; snprintf(b, sizeof b, "%s shard %d/7", (c - 3) & 1 ? "strings" : "domains", (c - 3) >> 1); return b; }
+static const mc_enum E = { "C03", "c03", 18, cfg_name, run_cfg, run_case };
 int main(int argc, char **argv) { return mc_enum_main(argc, argv, &E); }
